@@ -138,3 +138,176 @@ Example c10_capture_out_of_range :
   regex_capture_strict [[97; 98]; [97]; []] 2 = Ok (VStr []) /\
   regex_capture_lazy [[97; 98]; [97]; []] 3 = Err EUndefinedRegexCapture.
 Proof. vm_compute. split; reflexivity. Qed.
+
+(* ================= the scan loops of the INTERPRETER models ================= *)
+(* Everything above is about Model/Scan.v.  Model/Strict.v (`scan_loop`, with `arm_select` of
+   Model/Exec.v) and Model/Lazy.v (`lscan_loop`) have their own loops; the theorems below link them
+   to Model/Scan.v, for an arbitrary engine that reports group 0 for every match (`find_group0`:
+   true of the regex crate and of `rx_captures`, see rx_captures_group0 — Model/Scan.v treats a
+   match without group 0 as no match, arm_select as an empty match, the code panics; unreachable).
+   `strict_scan_fold` / `lazy_scan_fold` (Spec/ScanRun.v): for each event (k, start, end, texts) of
+   Model/Scan.v — poll, push a frame, run the body of arm k with `$0..$n` = texts, pop, continue at
+   `end`; after the last event: stop / EmptyRegexCapture / out of fuel as the final status says.
+   Equalities are pointwise in the state and poll state of the interpreter monad. *)
+From TSG Require Import Model.Strict Model.Lazy Spec.ScanRun Proofs.ScanLink.
+
+(* the strict loop = fold of the arm bodies over the events Model/Scan.v computes: same selection
+   (earliest start, first arm on ties), same advance, same empty-match error, same fuel use *)
+Theorem strict_scan_refines_scan_model : forall find, find_group0 find ->
+  forall run_arm arms rs subject fuel i st p,
+    Strict.scan_loop find run_arm arms rs subject fuel i st p =
+    strict_scan_fold run_arm arms subject i
+      (fst (Scan.scan_loop find fuel rs subject i)) (snd (Scan.scan_loop find fuel rs subject i)) st p.
+Proof. exact strict_scan_refines. Qed.
+
+(* the lazy loop likewise; it polls once per arm examined (all arms, or up to the first empty match) *)
+Theorem lazy_scan_refines_scan_model : forall find, find_group0 find ->
+  forall run_arm arms rs subject fuel i st p,
+    lscan_loop find run_arm arms rs subject fuel i st p =
+    lazy_scan_fold run_arm arms (length rs) subject i
+      (fst (Scan.scan_loop find fuel rs subject i)) (snd (Scan.scan_loop find fuel rs subject i)) st p.
+Proof. exact lazy_scan_refines. Qed.
+
+(* the arm-selection step both interpreters use is `scan_select` of Model/Scan.v *)
+Theorem arm_select_is_scan_select : forall find, find_group0 find ->
+  forall rs suffix,
+    arm_select find rs suffix =
+    match scan_select find rs suffix with
+    | SelNone => ASelNone
+    | SelEmpty k => ASelEmpty k
+    | SelArm k g => ASelArm k g
+    end.
+Proof. exact arm_select_scan_select. Qed.
+
+(* the `scan` STATEMENT of exec_stmt / lexec_stmt: subject evaluated, arm table looked up, then the
+   fold over the events of Model/Scan.v at the fuel the interpreters pass (|subject| + 1, position 0);
+   `strict_arm_runner` / `lazy_arm_runner` = the nested-block runner of the statement *)
+Theorem strict_scan_stmt_refines_scan_model : forall t fl cfg glob regexes find call, find_group0 find ->
+  forall fuel le value arms l st p,
+    exec_stmt t fl cfg glob regexes find call (S fuel) le (SScan value arms l) st p =
+    (poll L_exec_stmt ;;;
+     sv <- eval t fl glob call fuel le value ;; subject <- lift (as_str sv) ;;
+     match arm_table regexes arms with
+     | None => panic P_regex_table
+     | Some rs =>
+         let r := Scan.scan_loop find (S (length subject)) rs subject 0 in
+         strict_scan_fold (strict_arm_runner t fl cfg glob regexes find call fuel le) arms subject 0 (fst r) (snd r)
+     end) st p.
+Proof. exact strict_scan_stmt_refines_lemma. Qed.
+
+Theorem lazy_scan_stmt_refines_scan_model : forall t fl cfg glob regexes find call, find_group0 find ->
+  forall fuel le value arms l st p,
+    lexec_stmt t fl cfg glob regexes find call (S fuel) le (SScan value arms l) st p =
+    (lpoll L_exec_stmt ;;;
+     sv <- leager t fl glob call fuel le value ;; subject <- lift (as_str sv) ;;
+     match arm_table regexes arms with
+     | None => panic P_regex_table
+     | Some rs =>
+         let r := Scan.scan_loop find (S (length subject)) rs subject 0 in
+         lazy_scan_fold (lazy_arm_runner t fl cfg glob regexes find call fuel le) arms (length rs) subject 0 (fst r) (snd r)
+     end) st p.
+Proof. exact lazy_scan_stmt_refines_lemma. Qed.
+
+(* ---- the headline results as corollaries about the interpreters ---- *)
+(* scan_spec + scan_spec_unique + scan_terminates: with fuel above the remaining length (the
+   interpreters pass |subject| + 1 at position 0) the interpreter's loop is the fold over THE
+   declarative sequence ScanSeq; the loop itself does not run out of fuel (final status <> SOutOfFuel;
+   only an arm body can) *)
+Theorem strict_scan_spec : forall find, find_wf find -> find_group0 find ->
+  forall rs subject fuel i, (N.to_nat (str_len subject - i) < fuel)%nat ->
+    exists evs f,
+      ScanSeq find rs subject i evs f /\ ev_chain subject i evs /\ f <> SOutOfFuel /\
+      (forall evs' f', ScanSeq find rs subject i evs' f' -> evs' = evs /\ f' = f) /\
+      forall run_arm arms st p,
+        Strict.scan_loop find run_arm arms rs subject fuel i st p = strict_scan_fold run_arm arms subject i evs f st p.
+Proof. intros find W G. exact (strict_scan_spec_lemma find G W). Qed.
+
+Theorem lazy_scan_spec : forall find, find_wf find -> find_group0 find ->
+  forall rs subject fuel i, (N.to_nat (str_len subject - i) < fuel)%nat ->
+    exists evs f,
+      ScanSeq find rs subject i evs f /\ ev_chain subject i evs /\ f <> SOutOfFuel /\
+      (forall evs' f', ScanSeq find rs subject i evs' f' -> evs' = evs /\ f' = f) /\
+      forall run_arm arms st p,
+        lscan_loop find run_arm arms rs subject fuel i st p = lazy_scan_fold run_arm arms (length rs) subject i evs f st p.
+Proof. intros find W G. exact (lazy_scan_spec_lemma find G W). Qed.
+
+(* scan_progress, at every fuel: the arms an interpreter runs are non-empty matches, each starting at or
+   after the previous end and ending inside the subject *)
+Theorem strict_scan_progress : forall find, find_wf find -> find_group0 find ->
+  forall rs subject fuel i,
+    exists evs f, ev_chain subject i evs /\
+      forall run_arm arms st p,
+        Strict.scan_loop find run_arm arms rs subject fuel i st p = strict_scan_fold run_arm arms subject i evs f st p.
+Proof. intros find W G. exact (strict_scan_progress_lemma find G W). Qed.
+
+Theorem lazy_scan_progress : forall find, find_wf find -> find_group0 find ->
+  forall rs subject fuel i,
+    exists evs f, ev_chain subject i evs /\
+      forall run_arm arms st p,
+        lscan_loop find run_arm arms rs subject fuel i st p = lazy_scan_fold run_arm arms (length rs) subject i evs f st p.
+Proof. intros find W G. exact (lazy_scan_progress_lemma find G W). Qed.
+
+(* empty_match_is_error: an empty match of some arm at a position the loop reaches makes the
+   interpreter poll and fail with EmptyRegexCapture; no arm body runs there *)
+Theorem strict_empty_match_is_error : forall find, find_wf find -> find_group0 find ->
+  forall run_arm arms rs subject fuel i k a g st p,
+    i < str_len subject -> arm_match find rs subject i k a a g ->
+    Strict.scan_loop find run_arm arms rs subject (S fuel) i st p = (poll L_scan ;;; fail EEmptyRegexCapture) st p.
+Proof. intros find W G. exact (strict_empty_match_lemma find G W). Qed.
+
+Theorem lazy_empty_match_is_error : forall find, find_wf find -> find_group0 find ->
+  forall run_arm arms rs subject fuel i k a g st p,
+    i < str_len subject -> arm_match find rs subject i k a a g ->
+    exists k', k' <= k /\ (exists a' g', arm_match find rs subject i k' a' a' g') /\
+      lscan_loop find run_arm arms rs subject (S fuel) i st p =
+      (lpoll_n (S (N.to_nat k')) L_scan ;;; fail EEmptyRegexCapture) st p.
+Proof. intros find W G. exact (lazy_empty_match_lemma find G W). Qed.
+
+(* selected_arm_is_nonempty, for the selection function of the interpreters; and the selection rule itself *)
+Theorem interp_selected_arm_is_nonempty : forall find, find_wf find -> find_group0 find ->
+  forall rs suffix k c,
+    arm_select find rs suffix = ASelArm k c ->
+    exists a b g, c = Some (a, b) :: g /\ a < b /\ b <= str_len suffix /\
+      (exists r, nth_error rs (N.to_nat k) = Some r /\ find r suffix = Some c).
+Proof. intros find W G. exact (arm_select_nonempty_lemma find G W). Qed.
+
+Theorem interp_arm_select_spec : forall find, find_wf find -> find_group0 find ->
+  forall rs suffix,
+    match arm_select find rs suffix with
+    | ASelEmpty k => exists a c, arm_hit find rs suffix k a a c /\ forall k' a' c', k' < k -> ~ arm_hit find rs suffix k' a' a' c'
+    | ASelNone => forall k a b c, ~ arm_hit find rs suffix k a b c
+    | ASelArm k c => exists a b, arm_hit find rs suffix k a b c /\ a < b /\
+                       (forall k' a' c', ~ arm_hit find rs suffix k' a' a' c') /\
+                       (forall k' a' b' c', arm_hit find rs suffix k' a' b' c' -> a < a' \/ (a = a' /\ k <= k'))
+    end.
+Proof. intros find W G. exact (arm_select_spec_lemma find G W). Qed.
+
+(* the executable engine satisfies both hypotheses *)
+Theorem rx_captures_has_group0 : find_group0 rx_captures.
+Proof. intros r s c H. exact (proj2 (proj2 (rx_captures_ok r s c H))). Qed.
+
+(* non-vacuity: the strict and lazy loops on the example above, with an arm runner that records
+   nothing, from the initial states: two arms run, then the loop ends (Ok) *)
+Example c10_interp_loops_run :
+  (exists s p, Strict.scan_loop rx_captures (fun _ _ => ret tt) [(0, [], (0,0)); (1, [], (0,0)); (2, [], (0,0))]
+                 ex_arms ex_subject 5 0 (sinit []) (polls0 None) = Ok (tt, s, p) /\ p_count p = 2) /\
+  (exists s p, lscan_loop rx_captures (fun _ _ => ret tt) [(0, [], (0,0)); (1, [], (0,0)); (2, [], (0,0))]
+                 ex_arms ex_subject 5 0 (linit []) (polls0 None) = Ok (tt, s, p) /\ p_count p = 6).
+Proof.
+  split.
+  - rewrite (strict_scan_refines_scan_model _ rx_captures_has_group0). vm_compute. eexists. eexists. split; reflexivity.
+  - rewrite (lazy_scan_refines_scan_model _ rx_captures_has_group0). vm_compute. eexists. eexists. split; reflexivity.
+Qed.
+
+(* `$k` in the interpreters: eval / leval on a regex capture ARE the lookup functions of Model/Scan.v
+   (regex_capture_lookup) applied to the capture strings of the enclosing arm — those the scan folds
+   above pass to the arm runner (le_with_caps / ll_with_caps) *)
+Theorem regex_capture_interp : forall t fl glob call fuel i,
+  (forall le s p, eval t fl glob call (S fuel) le (ERegexCap i) s p = lift (regex_capture_strict (le_caps le) i) s p) /\
+  (forall le s p, leval t fl glob call (S fuel) le (ERegexCap i) s p =
+                  (v <- lift (regex_capture_lazy (ll_caps le) i) ;; ret (LValue v)) s p).
+Proof.
+  intros t fl glob call fuel i. split; intros le s p.
+  - cbn [eval]. unfold regex_capture_strict. destruct (nth_error (le_caps le) (N.to_nat i)); reflexivity.
+  - cbn [leval]. unfold regex_capture_lazy. destruct (nth_error (ll_caps le) (N.to_nat i)); reflexivity.
+Qed.
